@@ -252,15 +252,37 @@ def main():
         except Exception:
             pass
         return 1
+    early = None
+    if conv == "stdin" and sh.get("early", "0") != "0":
+        # a solver that answers as soon as it meets an empty clause, and leaves without reading the rest of its input
+        buf = b""
+        while len(buf) < 32768 and b"\n0\n" not in buf:
+            chunk = os.read(0, 4096)
+            if not chunk:
+                break
+            buf += chunk
+        head = [l.split() for l in buf.decode("ascii", "replace").splitlines() if l.startswith("p cnf")]
+        if b"\n0\n" in buf and head and len(head[0]) == 4:
+            early = (int(head[0][2]), int(head[0][3]))
+            try:
+                os.close(0)
+            except OSError:
+                pass
     try:
-        data = sys.stdin.buffer.read() if conv == "stdin" else open(files[0], "rb").read()
-        n, clauses = parse_dimacs(data)
+        if early is not None:
+            n, clauses = early[0], [()]
+        else:
+            data = (buf if conv == "stdin" and sh.get("early", "0") != "0" else b"") + \
+                (sys.stdin.buffer.read() if conv == "stdin" else open(files[0], "rb").read())
+            n, clauses = parse_dimacs(data)
     except Exception as e:                    # noqa: BLE001
         rec["err"] = "input: %r" % (e,)
         log()
         out.write(b"c cannot read the input\n")
         return 3
     rec["n"], rec["m"], rec["crc"] = n, len(clauses), canonical_crc(n, clauses)
+    if early is not None:
+        rec["m"], rec["crc"], rec["left_early"] = early[1], None, True       # (it has not seen the whole formula)
     if len(clauses) <= 60:
         rec["clauses"] = [list(c) for c in clauses]
     dec, model = decide(n, clauses, sh.get("pick", "lo:0"))
